@@ -588,6 +588,10 @@ def _install(T):
 
     @reg("numpy.where", doc="where(mask)[0]: increasing indices where mask holds (+ partition-count lemma)")
     def np_where(I, mask):
+        if isinstance(mask, Arr) and isinstance(mask.n, int):
+            items = mask.to_list()
+            if all(isinstance(b, bool) for b in items):
+                return (Arr.from_items([i for i, b in enumerate(items) if b], dtype="int"),)
         return (WhereResult(mask),)
 
     @reg("scipy.signal.correlate",
